@@ -24,13 +24,13 @@
 ;;                                    the prefix c14:; for each name the probes named by the keys (ce ca se sa ge ga el us uq: the name in
 ;;                                    the else / => position of cond, case, guard; as ellipsis / underscore of a local syntax-rules macro; as
 ;;                                    unquote) and (ml name) for every ml (an mlit/elit macro of the generated libraries).  The name is
-;;                                    never in operator position.  Answer per name: (probe-results ... ml-results ...)
+;;                                    never in operator position.  Answer per name: (probe-results ... ml-results-after ... ml-results-before ...)
 ;;   (load id libname KIND file)      KIND as above, or environment
 ;; probe of a name: the tagged value it evaluates to, or, when it is a procedure or a macro of the generated
 ;; libraries, the tagged value of (name); otherwise the symbol unbound.
 (import (scheme base) (scheme write) (scheme read) (scheme eval) (scheme file) (scheme process-context)
         (scheme repl) (scheme load) (only (meta) %resolve-import symbol-drop symbol-append)
-        (only (chibi ast) env-parent) (only (chibi) env-exports))
+        (only (chibi ast) env-parent) (only (chibi) env-exports identifier=? current-environment))
 
 ;;; BEGIN PROBE
 (define (c14-tagged? v)
@@ -103,11 +103,16 @@
 (define (c14-lit1 env form)
   (guard (e (#t 'unbound)) (c14-plain (eval form env))))
 
+;; per name: the (ml name) probes BEFORE anything has evaluated the name, the keyed probes (those for an unbound name evaluate it: chibi
+;; then creates an undefined cell for it in the environment), and the (ml name) probes AGAIN: the answers must be the same (R7RS 4.3.2: an
+;; identifier that was only referred to still has no binding)
 (define (c14-probe-lit env plan mls)
   (map (lambda (p)
-         (let ((n (car p)))
-           (append (map (lambda (k) (c14-lit1 env (c14-subst (cdr (assq k c14-lit-templates)) n))) (cdr p))
-                   (map (lambda (ml) (c14-lit1 env (list ml n))) mls))))
+         (let* ((n (car p))
+                (before (map (lambda (ml) (c14-lit1 env (list ml n))) mls))
+                (keyed (map (lambda (k) (c14-lit1 env (c14-subst (cdr (assq k c14-lit-templates)) n))) (cdr p)))
+                (after (map (lambda (ml) (c14-lit1 env (list ml n))) mls)))
+           (append keyed after before)))
        plan))
 
 (define (c14-out id x)
@@ -116,6 +121,23 @@
   (write-string " ")
   (write x)
   (newline))
+
+;; ---- sentinel for F-C06-1 (round 4).  An error raised INSIDE a macro transformer during (eval ...) and caught by guard is not unwound
+;; out of the nested sexp_apply of analyze_macro_once: the program goes on running inside it, with the COMPILE-TIME child context as the
+;; running context.  When the macro use stood inside a syntactic closure with free names, that context's free-names list
+;; (sexp_context_fv, e.g. (it x <env>)) stays in force for every primitive that looks a name up with the running context
+;; (sexp_env_cell_loc, eval.c:105-111): sexp_env_import_op then resolves the internal names it / x of an exporter in the macro
+;; template's environment (import skipped with a warning, or bound to ANOTHER library's x).  Two environments that bind `it` to
+;; different cells are identifier=? exactly when such a list is in force.  Without free names the context's ENVIRONMENT is still the
+;; one under analysis: (current-environment) is no longer the program's, and (eval '(import ...) env) -- which imports into the running
+;; context's environment -- delivers its names somewhere else.  props/C14.py never sends a probe that raises inside a transformer; if
+;; one does, the process says so and stops, instead of answering from a corrupted context.
+(define c14-env0 (current-environment))
+(define c14-sent-a (environment '(rename (only (scheme base) car) (car it))))
+(define c14-sent-b (environment '(rename (only (scheme base) cdr) (cdr it))))
+(define (c14-tainted?)
+  (or (not (eq? c14-env0 (current-environment)))
+      (identifier=? c14-sent-a 'it c14-sent-b 'it)))
 
 ;;; END PROBE
 
@@ -181,6 +203,8 @@
     (let lp ()
       (let ((form (read in)))
         (cond ((eof-object? form) #t)
-              (else (c14-run form) (lp)))))))
+              (else (c14-run form)
+                    (cond ((c14-tainted?) (write-string "TAINTED ") (write (cadr form)) (newline))
+                          (else (lp)))))))))
 (write-string "DONE")
 (newline)
